@@ -15,6 +15,9 @@
 EXTENDS Integers, Sequences, FiniteSets, TLC
 
 NodeC == {"var", "str", "obj", "missing", "null", "server"}       \* var = Int32 variable, str = non-ASCII String variable
+\* type nodes: rt1 -HasSubtype-> rt2 (two reference types of the standard hierarchy), dt1 -HasSubtype-> dt2 (data types of the
+\* session), vardt = variable of type dt1
+TypeC == {"rt1", "rt2", "dt1", "dt2"}
 AttrC == {"Value", "BrowseName", "EventNotifier", "zero", "big"}
 RangeC == {"none", "1", "0:1", "1:0", "5:900", "a", "1,2", "1:2:3"}
 NameC == {"ok", "slash", "dot", "lt", "amp", "colon", "hash", "empty", "ns5", "dup"}
@@ -22,6 +25,7 @@ ClassC == {"Object", "Variable", "Method", "Unspecified", "View"}
 AttrsC == {"match", "mismatch", "null", "garbage"}
 TypeDefC == {"ok", "null", "missing"}
 RefC == {"Organizes", "HasComponent", "null", "missing", "nonref"}
+RefXC == RefC \cup {"HasSubtype", "rt1"}
 FilterC == {"none", "datachange", "event_empty", "event_badcount", "event_badindex", "event_selfref", "event_attrop", "event_deep", "garbage"}
 NumC == {"nan", "neg", "zero", "small", "huge"}
 
@@ -29,19 +33,19 @@ R(svc, p) == [svc |-> svc] @@ p
 
 Reads == {R("Read", [node |-> n, attr |-> a, range |-> r]) : n \in NodeC, a \in AttrC, r \in RangeC}
 Writes == {R("Write", [node |-> n, attr |-> a, range |-> r, val |-> v]) :
-              n \in {"var", "str", "obj", "missing"}, a \in {"Value", "BrowseName", "zero"}, r \in RangeC,
+              n \in {"var", "str", "obj", "missing", "vardt"}, a \in {"Value", "BrowseName", "zero"}, r \in RangeC,
               v \in {"int", "string", "utf8", "array", "bytes", "null"}}
-Browses == {R("Browse", [node |-> n, ref |-> t, max |-> m]) : n \in NodeC, t \in RefC, m \in {0, 1}}
+Browses == {R("Browse", [node |-> n, ref |-> t, max |-> m]) : n \in NodeC, t \in RefXC, m \in {0, 1}}
 BrowseNexts == {R("BrowseNext", [cp |-> c, release |-> b]) : c \in {"null", "bogus", "live"}, b \in BOOLEAN}
 Translates == {R("Translate", [node |-> n, path |-> p]) : n \in NodeC,
-                 p \in {"empty", "nullname", "one", "customref", "long", "noelements"}}
+                 p \in {"empty", "nullname", "one", "customref", "long", "noelements", "rt1"}}
 Registers == {R("RegisterNodes", [node |-> n]) : n \in NodeC} \cup {R("UnregisterNodes", [node |-> n]) : n \in NodeC}
 AddNodesC == {R("AddNodes", [parent |-> pa, name |-> nm, rid |-> id, class |-> c, attrs |-> at, typedef |-> td, ref |-> rf]) :
                pa \in {"obj", "missing", "null"}, nm \in NameC, id \in {"null", "ns9", "existing", "fresh"}, c \in ClassC,
                at \in AttrsC, td \in TypeDefC, rf \in {"Organizes", "null", "nonref"}}
 AddRefs == {R("AddReferences", [src |-> s, dst |-> d, ref |-> rf, fwd |-> f, cls |-> c]) :
-               s \in {"var", "obj", "missing", "null"}, d \in {"var", "obj", "missing", "null", "same"}, rf \in RefC, f \in BOOLEAN,
-               c \in {"Variable", "Object", "Unspecified"}}
+               s \in {"var", "obj", "missing", "null"} \cup TypeC, d \in {"var", "obj", "missing", "null", "same"} \cup TypeC,
+               rf \in RefC \cup {"HasSubtype"}, f \in BOOLEAN, c \in {"Variable", "Object", "Unspecified", "ReferenceType", "DataType"}}
 DelNodes == {R("DeleteNodes", [node |-> n, tr |-> b]) : n \in {"missing", "null", "added", "cyc"}, b \in BOOLEAN}
 DelRefs == {R("DeleteReferences", [src |-> s, dst |-> d, ref |-> rf, fwd |-> f, bi |-> b]) :
                s \in {"var", "obj", "missing", "null"}, d \in {"var", "obj", "missing", "null", "same"}, rf \in {"Organizes", "null", "nonref"},
@@ -72,6 +76,42 @@ Misc == {R("QueryFirst", [x |-> 0]), R("QueryNext", [x |-> 0]), R("Cancel", [x |
 
 Universe == Reads \cup Writes \cup Browses \cup BrowseNexts \cup Translates \cup Registers \cup AddNodesC \cup AddRefs \cup DelNodes
             \cup DelRefs \cup Subs \cup Items \cup Calls \cup Hist \cup Misc
+
+-----------------------------------------------------------------------------
+(* Requests that are likely to be carried out (every parameter in a class that names something that exists) -- the  *)
+(* ones that change the state later requests run against.  Behaviours of two requests on one session, both from     *)
+(* this set, are enumerated exhaustively (GenServicesPairs); longer ones are sampled (GenServicesSeq).              *)
+IsLive(r) ==
+  CASE r.svc = "Read" -> r.node \in {"var", "obj"} /\ r.attr \in {"Value", "BrowseName"} /\ r.range \in {"none", "1"}
+    [] r.svc = "Write" -> r.node \in {"var", "str", "vardt"} /\ r.attr = "Value" /\ r.range \in {"none", "0:1"} /\ r.val \in {"int", "string", "array", "null"}
+    [] r.svc = "Browse" -> r.node \in {"obj", "var", "server"} /\ r.ref \in {"Organizes", "null", "rt1"}
+    [] r.svc = "BrowseNext" -> r.cp = "live"
+    [] r.svc = "Translate" -> r.node \in {"obj", "server"} /\ r.path \in {"one", "rt1", "long"}
+    [] r.svc \in {"RegisterNodes", "UnregisterNodes"} -> r.node = "var"
+    [] r.svc = "AddNodes" -> r.parent = "obj" /\ r.name \in {"ok", "dup"} /\ r.rid \in {"null", "fresh"} /\ r.class \in {"Object", "Variable"}
+                             /\ r.attrs = "match" /\ r.typedef = "ok" /\ r.ref = "Organizes"
+    [] r.svc = "AddReferences" ->
+          \/ r.src \in {"var", "obj"} /\ r.dst \in {"var", "obj"} /\ r.src # r.dst /\ r.ref \in {"Organizes", "HasComponent"}
+                /\ r.cls = (IF r.dst = "var" THEN "Variable" ELSE "Object")
+          \/ r.src \in {"rt1", "rt2"} /\ r.dst \in {"rt1", "rt2"} /\ r.src # r.dst /\ r.ref = "HasSubtype" /\ r.cls = "ReferenceType"
+          \/ r.src \in {"dt1", "dt2"} /\ r.dst \in {"dt1", "dt2"} /\ r.src # r.dst /\ r.ref = "HasSubtype" /\ r.cls = "DataType"
+    [] r.svc = "DeleteNodes" -> r.node \in {"added", "cyc"}
+    [] r.svc = "DeleteReferences" -> r.src = "obj" /\ r.dst = "var" /\ r.ref = "Organizes" /\ r.fwd
+    [] r.svc = "CreateSubscription" -> r.itv = "small" /\ r.ka = "small" /\ r.lt = "small"
+    [] r.svc = "ModifySubscription" -> r.sub = "live" /\ r.itv \in {"small", "zero"}
+    [] r.svc \in {"SetPublishingMode", "DeleteSubscriptions", "TransferSubscriptions"} -> r.sub = "live"
+    [] r.svc = "Publish" -> r.ack \in {"none", "live"}
+    [] r.svc = "Republish" -> r.sub = "live" /\ r.seq = 1
+    [] r.svc = "CreateMonitoredItems" -> r.sub = "live" /\ r.node \in {"var", "str"} /\ r.attr = "Value" /\ r.filter \in {"none", "datachange"}
+                                         /\ r.samp \in {"neg", "zero"} /\ r.qs = "zero" /\ r.range = "none"
+    [] r.svc = "ModifyMonitoredItems" -> r.sub = "live" /\ r.item = "live" /\ r.filter \in {"none", "datachange"}
+    [] r.svc = "SetMonitoringMode" -> r.sub = "live" /\ r.item = "live"
+    [] r.svc = "SetTriggering" -> r.sub = "live" /\ r.item = "live" /\ r.link \in {"self", "live2"}
+    [] r.svc = "DeleteMonitoredItems" -> r.sub = "live" /\ r.item = "live"
+    [] r.svc = "Call" -> r.obj = "server" /\ r.method \in {"GetMonitoredItems", "ResendData"} /\ r.args = "live"
+    [] OTHER -> FALSE
+Live == {r \in Universe : IsLive(r)}
+Pairs == Live \X Live
 
 \* L2: the property on an observation record
 \* e = [req, kind in {"response","fault","queued","none"}, fail, site, probe in BOOLEAN, ticked in BOOLEAN]
